@@ -1766,3 +1766,12 @@ def describe(tier):
             "other roots, so hidden state keyed by something other than the path may carry over between sequences; "
             "bounded to the listed step alphabet and length, one set of file names per sequence",
         ])
+
+
+_describe_base = describe
+
+
+def describe(tier):     # noqa: F811 - the base description plus what later rounds added to the space
+    d = _describe_base(tier)
+    d["rule"] = d["rule"] + " " + 'Family same-extension: the files of six formats are renamed to one extension (.dat; thorough also .txt and none) and every ordered pair (and some triples) of formats is read in one process, each read judged against its expectation.'
+    return d
